@@ -9,7 +9,7 @@ import sys, os, glob
 sys.path.insert(0, "lib")
 import vcommon as V
 from concurrent.futures import ThreadPoolExecutor
-groups = sorted(os.path.basename(os.path.dirname(p)) for p in glob.glob("coq/*/_CoqProject"))
+groups = open("ACTIVE_GROUPS").read().split()
 for g in groups:
     os.makedirs(os.path.join(V.BUILD, "extract", g), exist_ok=True)
 def b(g):
@@ -29,7 +29,7 @@ for g in groups:
             print(e); bad = True
 import subprocess
 for prof in ("dev", "release"):
-    args = ["cargo", "build", "--offline", "--bins"] + (["--release"] if prof == "release" else [])
+    args = ["cargo", "build", "--offline"] + sum([["--bin", b] for b in open("ACTIVE_BINS").read().split()], []) + (["--release"] if prof == "release" else [])
     rc, out = V.sh(args, cwd=V.HARNESS, timeout=3000)
     print("cargo %s %s" % (prof, "ok" if rc == 0 else "FAILED"))
     if rc != 0:
